@@ -68,9 +68,16 @@ def gen_plan(rng, idx):
         name = rng.choice(['d', 'x%d' % i, 'defs%d.tex' % i, 'sub/m%d.tex' % i,
                            'gl%d.glsdefs' % i, 'ab%d' % i, 'dä f%d.tex' % i,
                            '../up%d' % i, 'Defs%d.TEX' % i])
+        never = False
+        if rng.random() < 0.08 and not any(
+                v.get('never_readable') for v in ltfiles.values()):
+            # a name that cannot denote a readable file at all: empty, blank,
+            # or taken from a macro the filter does not know (expands to '')
+            name = rng.choice(['', ' ', '\\jobname', '\\glsdefsfile '])
+            never = True
         while name in ltfiles:
             name += 'x'
-        kind = rng.choice(FAULT_KINDS)
+        kind = 'ENOENT' if never else rng.choice(FAULT_KINDS)
         fault = {'kind': kind}
         if kind == 'EIO_read':
             fault['after'] = rng.randrange(0, 40)
@@ -88,6 +95,8 @@ def gen_plan(rng, idx):
             '\\newcommand{\\fromfile%s}{}\n' % 'abc'[i] * 6,
         ])
         ltfiles[name] = {'text': body, 'fault': fault}
+        if never:
+            ltfiles[name]['never_readable'] = True
         placement = rng.choice(list(PLACEMENTS))
         if kind == 'vanish':
             # first read succeeds, the second (later in the text) fails
@@ -140,7 +149,7 @@ def concrete(plan, faulty):
     files = {}
     for n, spec in plan['ltfiles'].items():
         files[n] = {'text': spec['text']}
-        if faulty and spec.get('fault'):
+        if (faulty or spec.get('never_readable')) and spec.get('fault'):
             files[n]['fault'] = spec['fault']
     tex = docgen.doc_text(plan['frags'])
     entry = plan['entry']
@@ -255,12 +264,17 @@ def evaluate(plan):
     # ---- twin: no mark, no diagnostic (apart from the deliberately unreadable
     #      nested file, whose diagnostic refers to the included file)
     twin_txt = ''.join(p[0] for p in twin['parts'])
-    if not plan['nested']:
+    never = any(sp.get('never_readable') for sp in plan['ltfiles'].values())
+    if never:
+        # this "file" is unreadable in the twin as well: the twin says nothing
+        # about marks and diagnostics then
+        probes['name_never_readable'] = 1
+    elif not plan['nested']:
         if diags_twin:
             return viol('twin:diagnostic-on-readable-files', twin_diag=diags_twin[:3])
     else:
         probes['nested_include_error'] = 1
-    if MARK in twin_txt:
+    if MARK in twin_txt and not never:
         return viol('twin:mark-on-readable-files')
 
     bad_txt = ''.join(p[0] for p in bad['parts'])
